@@ -353,7 +353,7 @@ fn t_classes() -> Vec<(&'static str, Duration)> {
 fn c04_case(ctx: &mut Ctx, rng: &mut Rng, i: u64) {
     let seed = rng.next() >> 1;
     let tcs = t_classes();
-    let kinds = ["silent", "trickle", "burst-then-silent", "flood", "closes-stdin-pipe-full", "closes-stdin-pipe-not-full", "exits-mid-exchange", "no-limit-control", "slow-reader-of-large-input", "nibbles-input-then-pauses"];
+    let kinds = ["silent", "trickle", "burst-then-silent", "flood", "closes-stdin-pipe-full", "closes-stdin-pipe-not-full", "exits-mid-exchange", "no-limit-control", "slow-reader-of-large-input", "nibbles-input-then-pauses", "only-stdin-piped"];
     let kind = kinds[(i % kinds.len() as u64) as usize];
     let (tname, t) = tcs[rng.below(tcs.len() as u64) as usize].clone();
     let cap: i64 = 65536;
@@ -361,6 +361,7 @@ fn c04_case(ctx: &mut Ctx, rng: &mut Rng, i: u64) {
     let mut op_cost = 0i64;
     let mut kill_after = false;
     let mut first_time: Option<Duration> = Some(t);
+    let mut only_stdin = false;
     let script = match kind {
         "silent" => {
             kill_after = true;
@@ -411,6 +412,12 @@ fn c04_case(ctx: &mut Ctx, rng: &mut Rng, i: u64) {
             input = Some(comm::input_for(seed, rng.range(cap as u64 * 2, cap as u64 * 3) as usize));
             format!("s{},r{},s{},R,w1:{}:4096,x0", rng.range(10, 30), *rng.pick(&[4096u64, 4096, 8192, 1, 5000]), rng.range(300, 500), rng.range(0, 5000))
         }
+        "only-stdin-piped" => {
+            // nothing is captured: the exchange consists of feeding a large input to a child that takes it slowly
+            input = Some(comm::input_for(seed, rng.range(cap as u64 * 2, cap as u64 * 4) as usize));
+            only_stdin = true;
+            format!("s{},r{},s{},R,x0", rng.range(10, 30), *rng.pick(&[4096u64, 1, 70000]), rng.range(300, 500))
+        }
         "exits-mid-exchange" => {
             input = if rng.chance(500) { Some(comm::input_for(seed, rng.range(1, 300_000) as usize)) } else { None };
             format!("w1:{}:4096,s{},x{}", rng.range(0, 100_000), rng.range(0, 10), rng.below(3))
@@ -442,8 +449,8 @@ fn c04_case(ctx: &mut Ctx, rng: &mut Rng, i: u64) {
         seed,
         script,
         input,
-        out_piped: true,
-        err_piped: true,
+        out_piped: !only_stdin,
+        err_piped: !only_stdin,
         err_merge: false,
         cap,
         entry: if rng.chance(800) { Entry::Start } else { Entry::ExecCommunicate },
